@@ -95,3 +95,10 @@
 ; contains a call of Yield/YieldFrom outside nested function literals (abstract; decided by rewriter.containsYield)
 (declare-fun HasYield (Iface) Bool)
 (assert (not (HasYield nilIface)))
+; astutil cursor (abstract) and the source-level target of a branch statement (ghost, C01 side condition S2)
+(declare-fun cursorNode (Ref) Iface)
+(declare-fun SrcBreakTargetsLoop (Ref) Bool)
+(declare-fun LoopBodyHasContinue (Ref) Bool)
+; go/types facts used by the optimiser's side conditions (abstract)
+(declare-fun objectOf (Ref) Iface)
+(declare-fun TypesIdentical (Iface Iface) Bool)
